@@ -155,14 +155,21 @@ TraceEnd ==
   /\ Ev.nrefused = Cardinality(refused)
   /\ UNCHANGED vars /\ Quiet
 
-InvAll == Inv
+\* Every invariant of ZipSender on the state after the step.  Packs already handed over never change in the
+\* specification (emitted only grows), so Decodable is evaluated on the newest pack when there is one; that the
+\* buffer region holds the encodings of the records in it is a fact about the specification's own memory
+\* (model-checked), and every hand-over compares the real bytes with it.
+InvAll ==
+  /\ ExactlyOnceInOrder' /\ CountMatches' /\ ZipIff' /\ DefaultsInForce' /\ HandedOverIsImmutable'
+  /\ blen' = SumSize(live')
+  /\ Len(emitted') > Len(emitted) => DecodablePack(emitted'[Len(emitted')])
 
 TraceNext ==
   /\ \/ TraceReset \/ TraceNew \/ TraceAdd \/ TraceRefused \/ TraceStopCall \/ TraceStopRet \/ TraceSync
      \/ TracePoll \/ TraceStopSeen \/ TraceTake \/ TraceIdle \/ TraceAppendCall \/ TraceAppendRet \/ TraceAppend
      \/ TraceSend \/ TraceCleared \/ TraceExit \/ TraceDirectBegin \/ TraceDirectEnd \/ TracePeek
      \/ TraceApplyConfig \/ TraceEnd \/ TraceDecide
-  /\ InvAll'
+  /\ InvAll
   /\ FlushWhenDueStep
 
 TraceSpec == TraceInit /\ [][TraceNext]_tvars
